@@ -55,6 +55,9 @@ type C15Case struct {
 	// copies of the same values in another order (1 = reversed, otherwise a
 	// permutation derived from the number). "In any order" is part of C15.
 	Reorder uint64 `json:"reorder,omitempty"`
+	// Clock: how simulated time passes during the live calls of the history
+	// (the reference executions always run under the steady clock).
+	Clock simos.ClockPolicy `json:"clock,omitempty"`
 	// WarmUp lists histories the process lived through before this one. Only
 	// the comparison of a cold process with a warm one uses it.
 	WarmUp []C15Case `json:"warm_up,omitempty"`
@@ -512,7 +515,9 @@ func checkC15(c C15Case) (*Violation, []string, *caseInfo) {
 			liveDiffs[j] = s.live.(jd.Diff)
 		}
 		st.install()
+		simos.SetClock(c.Clock)
 		got, produced := execCall(call, c, w.nodes[0].live.(jd.JsonNode), w.nodes[1].live.(jd.JsonNode), liveDiffs, w.sharedOpts)
+		harvestClock()
 		uninstallOrder()
 		// reference execution: fresh deep copies of the pristine twins, canonical order
 		refDiffs := make([]jd.Diff, len(w.diffs))
@@ -936,6 +941,14 @@ func genCase15(c *Chooser) C15Case {
 		cs.Calls = append(cs.Calls, call)
 	}
 	cs.Order = MapOrder{Mode: []string{"canonical", "reverse", "rotate", "shuffle", "mixed", "shuffle"}[c.Int(6)], Seed: c.U64()}
+	switch c.Int(6) {
+	case 0:
+		// a loaded machine: time jumps between clock readings
+		cs.Clock = simos.ClockPolicy{Mode: "slow", Seed: c.U64()}
+	case 1:
+		// every deadline is already due when it is set
+		cs.Clock = simos.ClockPolicy{Mode: "expired"}
+	}
 	switch c.Int(4) {
 	case 0:
 		cs.Reorder = 1
@@ -1028,6 +1041,16 @@ func shrink15(raw json.RawMessage) []json.RawMessage {
 		d := cp()
 		d.Calls = append(d.Calls[:i:i], d.Calls[i+1:]...)
 		add(d)
+	}
+	if c.Clock.Mode != "" {
+		d := cp()
+		d.Clock = simos.ClockPolicy{}
+		add(d)
+		if c.Clock.Mode != "expired" {
+			d = cp()
+			d.Clock = simos.ClockPolicy{Mode: "expired"}
+			add(d)
+		}
 	}
 	if c.Reorder != 0 {
 		d := cp()
